@@ -320,10 +320,21 @@ def facts(src_root):
             kinds = set()
             for oc in B:
                 evs = run(cg["visit_CallBlock"], vol=vol, ae=ae, outcheck=oc, known_ext=False)
-                names = [e[1] for e in evs if e[0] == "w" or (e[0] == "call" and e[1] in ("start_write", "visit_Call", "end_write"))]
+                names = [e[1] for e in evs if e[0] == "w" or (e[0] == "call" and e[1] in (
+                    "start_write", "visit_Call", "end_write", "_call_block_result_pre", "_call_block_result_post"))]
                 if "start_write" not in names or "end_write" not in names:
                     raise Untranslatable("visit_CallBlock shape " + repr(names))
                 shape = names[names.index("start_write"):names.index("end_write") + 1]
+                if shape == ["start_write", "_call_block_result_pre", "visit_Call", "_call_block_result_post", "end_write"]:
+                    # the wrapper lives in two helper methods (overridden by the native code generator): inline them
+                    for h in ("_call_block_result_pre", "_call_block_result_post"):
+                        if h not in cg:
+                            raise Untranslatable("CodeGenerator." + h + " not found")
+                    pre = run(cg["_call_block_result_pre"], vol=vol, ae=ae)
+                    post = run(cg["_call_block_result_post"], vol=vol, ae=ae)
+                    if any(e[0] != "w" for e in pre + post):
+                        raise Untranslatable("_call_block_result_pre/post: unexpected event")
+                    shape = ["start_write"] + writes(pre) + ["visit_Call"] + writes(post) + ["end_write"]
                 if len(shape) != 5 or shape[2] != "visit_Call" or shape[3] != ")" or shape[1] not in OW:
                     raise Untranslatable("visit_CallBlock shape " + repr(shape))
                 kinds.add(OW[shape[1]])
